@@ -107,26 +107,34 @@ def dropLast2 (l : List Nat) : List Nat := l.take (l.length - 2)
 def dropLast1 (l : List Nat) : List Nat := l.take (l.length - 1)
 def endsWith (l suffix : List Nat) : Bool := l.length ≥ suffix.length && l.drop (l.length - suffix.length) == suffix
 
+/-- `!` / `\!` -/
+def stripNeg (raw : List Nat) : Bool × List Nat :=
+  match raw with
+  | 33 :: r => (true, r)
+  | 92 :: 33 :: r => (false, 33 :: r)
+  | _ => (false, raw)
+
+/-- `^`, `'`, `\^`, `\'` -/
+def stripKind (a1 : List Nat) : AtomKind × List Nat :=
+  match a1 with
+  | 94 :: r => (.prefix, r)
+  | 39 :: r => (.substring, r)
+  | 92 :: 94 :: r => (.fuzzy, 94 :: r)
+  | 92 :: 39 :: r => (.fuzzy, 39 :: r)
+  | _ => (.fuzzy, a1)
+
+/-- `\$`, `$`: (kind, append a literal `$`, rest) -/
+def stripDollar (kind : AtomKind) (a2 : List Nat) : AtomKind × Bool × List Nat :=
+  if endsWith a2 [92, 36] then (kind, true, dropLast2 a2)
+  else if endsWith a2 [36] then ((if kind = .fuzzy then .postfix else .exact), false, dropLast1 a2)
+  else (kind, false, a2)
+
 def parseAtom (seg : Seg) (raw : List Nat) (case : CaseMatching) (norm : Normalization) : Atom :=
-  -- `!` / `\!`
-  let (invert, a1) : Bool × List Nat := match raw with
-    | 33 :: r => (true, r)
-    | 92 :: 33 :: r => (false, 33 :: r)
-    | _ => (false, raw)
-  -- `^`, `'`, `\^`, `\'`
-  let (kind, a2) : AtomKind × List Nat := match a1 with
-    | 94 :: r => (.prefix, r)
-    | 39 :: r => (.substring, r)
-    | 92 :: 94 :: r => (.fuzzy, 94 :: r)
-    | 92 :: 39 :: r => (.fuzzy, 39 :: r)
-    | _ => (.fuzzy, a1)
-  -- `\$`, `$`
-  let (kind, appendDollar, a3) : AtomKind × Bool × List Nat :=
-    if endsWith a2 [92, 36] then (kind, true, dropLast2 a2)
-    else if endsWith a2 [36] then ((if kind = .fuzzy then .postfix else .exact), false, dropLast1 a2)
-    else (kind, false, a2)
-  let kind := if invert ∧ kind = .fuzzy then AtomKind.substring else kind
-  { newInner seg a3 case norm kind true appendDollar with negative := invert }
+  let p1 := stripNeg raw
+  let p2 := stripKind p1.2
+  let p3 := stripDollar p2.1 p2.2
+  let kind := if p1.1 ∧ p3.1 = .fuzzy then AtomKind.substring else p3.1
+  { newInner seg p3.2.2 case norm kind true p3.2.1 with negative := p1.1 }
 
 /-- `Pattern::parse` / `Pattern::reparse` -/
 def parsePattern (seg : Seg) (text : List Nat) (case : CaseMatching) (norm : Normalization) : List Atom :=
